@@ -63,4 +63,5 @@ CASES = [
     dict(name="latlon-not-forced-3d", file=T, expect=["R02.3", "R02.1"], old="    dim = (3 + int(model.temporal)) if model.latlon else dim\n", new=""),
     dict(name="twin-jbessel-bound-rewritten", kind="twin", file=M, old='        return {"nu": [self.dim / 2 - 1, 50.0]}', new='        return {"nu": [(self.dim - 2) / 2.0, 50.0]}'),
     dict(name="twin-linear-check-rewritten", kind="twin", file=M, old='        """Linear model is only valid in 1D."""\n        return dim < 2', new='        """Linear model is only valid in 1D."""\n        return dim == 1'),
+    dict(name="check-dim-spatial-part-only", file="covmodel/tools.py", expect="R02.1", old="    if not model.check_dim(dim):", new="    if not model.check_dim(dim - int(model.temporal)):"),
 ]
